@@ -211,7 +211,7 @@ def live_object(src, name):
     importlib.invalidate_caches()
     import linecache
 
-    linecache.checkcache(path)
+    linecache.clearcache()  # inspect.getsource must read the file just written, never a cached predecessor
     return getattr(importlib.import_module("c07live"), name)
 
 
